@@ -13,16 +13,18 @@ SPEC = dict(
          "(mode x disabled list x preferred x credentials). Configurations: 6 modes {SASL; SASL2 without <fast/>; SASL2 with FAST "
          "disabled by setting; SASL2 with FAST disabled by missing user agent; SASL2+FAST; SASL2+FAST with HT names in both lists} "
          "x 5 disabled lists (library default, empty, 3 others) x 8 preferred {none, ANONYMOUS, PLAIN, DIGEST-MD5, SCRAM-SHA-256, "
-         "HT-SHA-256-NONE, X-OAUTH2, unparseable} x 6 credential states {password, nothing, password+HT token, HT token only, "
-         "password+oauth tokens, oauth tokens only} = 1440. Exhaustive: thorough = every one of the 4096 subsets of a 12-name "
-         "universe (one name per family + 4 SCRAM hashes + 2 HT variants + unknown + SCRAM-SHA-1-PLUS) for all 1440 configurations, "
+         "HT-SHA-256-NONE, X-OAUTH2, unparseable} x 10 credential states {password, nothing, password+HT token, HT token only, "
+         "password+oauth tokens, oauth tokens only, and four with EMPTY-BUT-NON-NULL strings (QString(\"\")): password \"\" only; password \"\" + HT "
+         "token with secret \"\"; password + all oauth strings \"\"; password \"\" + google token + facebook token with app id \"\"} = 2400 "
+         "(every string credential has the three states null / empty-non-null / non-empty; the random part draws them independently). Exhaustive: thorough = every one of the 4096 subsets of a 12-name "
+         "universe (one name per family + 4 SCRAM hashes + 2 HT variants + unknown + SCRAM-SHA-1-PLUS) for all 2400 configurations, "
          "plus a second 12-name universe (other X- families, HT with channel binding, doubly-matching HT names, case variants, "
-         "empty name) on a 1/8 sample; quick = all 256 subsets of an 8-name universe for all 1440 configurations + all 4096 subsets "
-         "for a seeded 1/16 sample + second universe on a 1/120 sample. Then seeded random: shuffled/duplicated orderings of subsets "
+         "empty name) on a 1/8 sample; quick = all 256 subsets of an 8-name universe for all 2400 configurations + all 4096 subsets "
+         "for a seeded 1/24 sample + second universe on a 1/120 sample. Then seeded random: shuffled/duplicated orderings of subsets "
          "(outcome must not change), and random configurations x random offer lists (length <= 10, duplicates) over a ~90-name "
          "space (all 28 HT names, truncated/extended/lower-case/concatenated names, empty name). A group is non-trivial when it "
          "yields >= 2 distinct observations. The oracle (independent of the model) checks on every line: chosen in offered, not "
-         "disabled, supported and credential-usable; = preferred if that is permitted; else no permitted mechanism stronger per "
+         "disabled, supported and credential-usable (usable = the needed secret strings are NON-EMPTY); = preferred if that is permitted; else no permitted mechanism stronger per "
          "token > SCRAM-SHA3-512 > -512 > -256 > -1 > DIGEST-MD5 > PLAIN > ANONYMOUS; <fast/> attached iff FAST on and name in "
          "<fast/>; nothing sent and MechanismMismatch iff nothing permitted.",
     trusted_base=[
